@@ -8,7 +8,7 @@ import re
 from ..cfg import build_cfg, calls_in, node_calls
 from ..core import Ctx, property_info, rule, share
 from ..model import AnalysisError, FuncInfo, walk_no_nested
-from ..q import polar_forms, L, call_name_of, control_deps, flows, forms, A, MUTATORS, asrc, is_self_attr, kwarg, names_in, root_name, stores, unparse
+from ..q import leaves_at, expand, polar_forms, L, call_name_of, control_deps, flows, forms, A, MUTATORS, asrc, is_self_attr, kwarg, names_in, root_name, stores, unparse
 from ..state import CONSTRUCTION, Site, collect_sites, defaultdict_attrs, persistent_classes, self_reads, value_mutated_after
 from .c03 import who_may_write_map
 
@@ -47,6 +47,11 @@ DESIGNATED = {
 }
 
 
+# registration tables: configuration, not caches - every writer is in DESIGNATED (frozen; ConverterFactory.registry decides which types are
+# convertible and how, ClassTypes.types which class systems exist)
+REGISTRIES = {("ConverterFactory", "registry"), ("ClassTypes", "types")}
+
+
 def _sites(ctx: Ctx) -> list[Site]:
     s = ctx.notes.get("_state_sites")
     if s is None:
@@ -60,6 +65,8 @@ def _classify(ctx: Ctx, s: Site) -> tuple[bool, str]:
     key = (s.cls.name, s.fi.name, s.attr)
     if key in DESIGNATED:
         return True, f"designated: {DESIGNATED[key]}"
+    if (s.cls.name, s.attr) in REGISTRIES:
+        return False, f"self.{s.attr} is a registration table: only its registration API may write it - an entry left behind by a conversion changes what later calls (and metadata builds) see"
     if _class_level_mutable(s.cls, s.attr):
         return False, f"self.{s.attr} is a class-level container shared by every instance (and subclass): per-instance results (bound methods, per-context data) written into it leak between instances"
     if s.kind in ("rebind", "setitem"):
@@ -67,7 +74,16 @@ def _classify(ctx: Ctx, s: Site) -> tuple[bool, str]:
         if later:
             return False, f"the stored value is mutated after it was published (line {getattr(later[0], 'lineno', '?')}: {unparse(later[0])[:60]}): other callers can observe it half-built"
         if s.kind == "setitem" and isinstance(s.node, ast.Assign) and len(s.node.targets) > 1:
-            return False, "chained assignment publishes the value and keeps a local alias to it"
+            # `x = self.cache[k] = value`: fine while the alias is only read afterwards (returned, attributes loaded); handing it to other code
+            # after the publish may complete it there
+            aliases = {t.id for t in s.node.targets if isinstance(t, ast.Name)}
+            g_ = build_cfg(s.fi.node)
+            sn_ = g_.node_of(s.node)
+            after_ = g_.reachable([m for m, _ in g_.succ[sn_.id]]) if sn_ is not None else set()
+            for c in calls_in(s.fi.node):
+                n_ = g_.node_of(c)
+                if n_ is not None and n_.id in after_ and any(isinstance(a, ast.Name) and a.id in aliases for a in [*c.args, *[k.value for k in c.keywords]]):
+                    return False, "chained assignment publishes the value and keeps a local alias that is handed to other code afterwards"
         if isinstance(s.value, (ast.List, ast.Dict, ast.Set)) and s.kind == "setitem" and not (s.value.elts if not isinstance(s.value, ast.Dict) else s.value.keys):
             # an empty container stored under a key is only a publish if nothing fills it later - checked above through aliases;
             # filling through the attribute itself is a separate mutator site
@@ -120,7 +136,7 @@ def publish_after_compute(ctx: Ctx) -> None:
     _marker_obligations(ctx)
 
 
-def _marker_obligations(ctx: Ctx) -> None:
+def _marker_obligations(ctx: Ctx, concurrent: bool = False) -> None:
     # validity markers are written after the structure they validate - in every function that writes the marker
     ctxc = ctx.repo.cls("xsdata.formats.dataclass.context:XmlContext")
     for m in ctxc.methods.values():
@@ -132,6 +148,18 @@ def _marker_obligations(ctx: Ctx) -> None:
         g0 = build_cfg(m.node)
         pubs = [g0.node_of(st) for st, tgt, v in stores(m.node) if is_self_attr(tgt, "xsi_cache")]
         ok0 = bool(pubs) and all(g0.must_pass(g0.entry, g0.node_of(mk).id, [p_.id for p_ in pubs if p_]) for mk in marks)
+        if not concurrent:
+            # sequential histories (C14): the order of the two final stores cannot be observed; what matters is that the marker is stored
+            # only when the index is complete - nothing fills the index (the published attribute or the local that is published) after it
+            carriers = {"self.xsi_cache"} | {unparse(v) for st, tgt, v in stores(m.node) if is_self_attr(tgt, "xsi_cache") and isinstance(v, ast.Name)}
+            fills = [g0.node_of(st) for st, tgt, v in stores(m.node) if isinstance(tgt, ast.Subscript) and unparse(tgt.value) in carriers]
+            fills += [g0.node_of(c) for c in calls_in(m.node) if isinstance(c.func, ast.Attribute) and c.func.attr in MUTATORS and (
+                unparse(c.func.value) in carriers or (isinstance(c.func.value, ast.Subscript) and unparse(c.func.value.value) in carriers))]
+            after_ = set()
+            for mk in marks:
+                nk = g0.node_of(mk)
+                after_ |= g0.reachable([x for x, _ in g0.succ[nk.id]]) if nk is not None else set()
+            ok0 = bool(pubs) and not any(f_ is not None and f_.id in after_ for f_ in fills)
         ctx.ob(f"XmlContext.{m.name}: the validity marker sys_modules is stored only after the index it validates was published (in the same function)", ok0, at=m, node=marks[0], construct=f"marker order {m.name}",
                msg="the marker becomes valid before the index is rebuilt: other threads skip the rebuild and read the stale / empty index (no class found, xsi:type ignored)")
     lm = ctx.repo.func("xsdata.formats.dataclass.context:XmlContext.local_names_match")
@@ -162,8 +190,16 @@ def _marker_obligations(ctx: Ctx) -> None:
             ctx.ob("local_names_match evicts exactly the unbindable class: the new entry is the old entry filtered by `is not clazz`", good, at=lm, node=st, construct="eviction filter",
                    msg="the eviction drops other classes that share the qualified name: after one failing decode a shared context no longer finds a valid model by qname")
             continue
+        # list(<generator expression>) is the list comprehension (the generator may be named first)
+        unwrapped = []
         for leaf in leaves:
-            comp_ok = isinstance(leaf, ast.ListComp) and len(leaf.generators) == 1 and bool(leaf.generators[0].ifs) and any(
+            if isinstance(leaf, ast.Call) and isinstance(leaf.func, ast.Name) and leaf.func.id == "list" and len(leaf.args) == 1 and not leaf.keywords:
+                unwrapped += leaves_at(lm, n, leaf.args[0])
+            else:
+                unwrapped.append(leaf)
+        leaves = unwrapped
+        for leaf in leaves:
+            comp_ok = isinstance(leaf, (ast.ListComp, ast.GeneratorExp)) and len(leaf.generators) == 1 and bool(leaf.generators[0].ifs) and any(
                 isinstance(c, ast.Compare) and isinstance(c.ops[0], (ast.IsNot, ast.NotEq)) and "clazz" in {unparse(c.left), unparse(c.comparators[0])} for c in leaf.generators[0].ifs)
             src_forms = forms(lm, n, leaf.generators[0].iter) if comp_ok else set()
             # the filtered list is the old entry read from the cache under a key: self.xsi_cache[k] / self.xsi_cache.get(k[, default])
@@ -175,7 +211,8 @@ def _marker_obligations(ctx: Ctx) -> None:
     pub = [g.node_of(st) for st, tgt, v in stores(b.node) if is_self_attr(tgt, "xsi_cache")]
     mark = [g.node_of(st) for st, tgt, v in stores(b.node) if is_self_attr(tgt, "sys_modules")]
     ok = bool(pub) and bool(mark) and all(g.must_pass(g.entry, m.id, [p.id for p in pub]) for m in mark)
-    ctx.ob("build_xsi_cache: the validity marker sys_modules is stored after the index is published", ok, at=b, construct="marker last", msg="a failed or concurrent rebuild would leave a valid-looking marker over a stale index")
+    if concurrent:
+        ctx.ob("build_xsi_cache: the validity marker sys_modules is stored after the index is published", ok, at=b, construct="marker last", msg="a failed or concurrent rebuild would leave a valid-looking marker over a stale index")
     # the marker is computed before the scan (a module imported during the scan triggers another rebuild instead of being missed)
     mv = [v for st, tgt, v in stores(b.node) if is_self_attr(tgt, "sys_modules")]
     ok = bool(mv) and all(isinstance(v, ast.Name) for v in mv)
@@ -339,8 +376,10 @@ def recorder_isolation(ctx: Ctx) -> None:
     ctx.ob("NodeParser.parse passes the recorder only to handler.parse", ok, at=np_, construct="recorder hand-off", msg="recorder reaches other code")
     # the native handler builds each element's in-scope map from the parent node's map + the element's own declarations (never from the recorder)
     mp = ctx.repo.func(f"{P}.handlers.native:XmlEventHandler.merge_parent_namespaces")
-    ctx.ob("merge_parent_namespaces takes only the element's own declarations and the parent node's map", [a.arg for a in mp.params] == ["self", "ns_map"] and "self.queue[-1].ns_map" in unparse(mp.node)
-           and "self.parser.ns_map" not in unparse(mp.node), at=mp, construct="merge inputs", msg="the in-scope map is built from instance state")
+    # every `.ns_map` read of the function, with temporaries expanded (`parent = self.queue[-1]; parent.ns_map`)
+    reads = {unparse(expand(mp.node, x)) for x in walk_no_nested(mp.node) if isinstance(x, ast.Attribute) and x.attr == "ns_map" and isinstance(x.ctx, ast.Load)}
+    ctx.ob("merge_parent_namespaces takes only the element's own declarations and the parent node's map", [a.arg for a in mp.params] == ["self", "ns_map"] and "self.queue[-1].ns_map" in reads
+           and "self.parser.ns_map" not in reads and "self.parser.ns_map" not in unparse(mp.node), at=mp, construct="merge inputs", msg="the in-scope map is built from instance state")
     pc = ctx.repo.func(f"{P}.handlers.native:XmlEventHandler.process_context")
     calls = [c for c in calls_in(pc.node) if isinstance(c.func, ast.Attribute) and c.func.attr == "merge_parent_namespaces"]
     ok = bool(calls) and all(len(c.args) == 1 and isinstance(c.args[0], ast.Name) and c.args[0].id != "ns_map" for c in calls)
@@ -503,7 +542,7 @@ share("C14", "C14.R7", who_may_write_map)
 def shared_write_patterns(ctx: Ctx) -> None:
     """Every mutation site of state shared between threads is an atomic publish or a designated (single-threaded) writer."""
     _emit_sites(ctx, "concurrent write")
-    _marker_obligations(ctx)
+    _marker_obligations(ctx, concurrent=True)
     # no lock exists in the library: the claim rests on the publish pattern alone
     locks = [fi.qual for fi in ctx.repo.funcs_in("xsdata.formats") for c in calls_in(fi.node) if unparse(c.func).endswith(("Lock", "RLock"))]
     ctx.note("locks", locks)
@@ -577,7 +616,11 @@ def no_shared_scratch(ctx: Ctx) -> None:
     kept = [tgt for st, tgt, v in stores(np_.node) if is_self_attr(tgt) and isinstance(v, ast.Call) and unparse(v.func) == "self.handler"]
     ctx.ob("NodeParser.parse creates the handler (queue, objects) per call", len(hcalls) >= 1 and not kept, at=np_, construct="per-call handler", msg="handler kept on the parser")
     xh = ctx.repo.func("xsdata.formats.dataclass.parsers.mixins:XmlHandler.__init__")
-    fresh = {tgt.attr for st, tgt, v in stores(xh.node) if is_self_attr(tgt) and (isinstance(v, ast.List) and not v.elts or (isinstance(v, ast.Call) and unparse(v.func) == "list" and not v.args))}
+    def _fresh_list(x: ast.expr) -> bool:
+        return isinstance(x, ast.List) and not x.elts or (isinstance(x, ast.Call) and unparse(x.func) == "list" and not x.args)
+
+    # every value that can flow into the attribute is a list created in this call (directly or through a local)
+    fresh = {tgt.attr for st, tgt, v in stores(xh.node) if is_self_attr(tgt) and v is not None and (lv := leaves_at(xh, st, v)) and all(_fresh_list(x) for x in lv)}
     ctx.ob("XmlHandler.__init__ creates fresh queue / objects lists", {"queue", "objects"} <= fresh, at=xh, construct="fresh queue", msg="queue shared between handlers")
     xw = ctx.repo.func("xsdata.formats.dataclass.serializers.xml:XmlSerializer.write")
     wcalls = [c for c in calls_in(xw.node) if unparse(c.func) == "self.writer"]
